@@ -16,9 +16,9 @@ L1, over the schema table regenerated from the repository (`Gen/C08.lean`), by `
 L2, for every value (no bound):
 * `proto_roundtrip` — ProtoUnmarshal ∘ ProtoMarshal = the explicit projection `lossyProto`;
   `proto_property_partial` — which the Spec's comparison accepts when the pin's mode agrees with its
-  depth; `proto_property_full` (no such hypothesis) and `proto_property_full_fails` (finding K02).
+  depth; `proto_property_full` (no such hypothesis) and `proto_property_full_fails` (finding K13).
 * `query_roundtrip`, `query_property`.
-* `status_string_roundtrip_partial` / `_full` / `_full_fails` (finding K03), `status_named_roundtrip`, `mode_string_roundtrip`, `type_string_roundtrip`.
+* `status_string_roundtrip_partial` / `_full` / `_full_fails` (finding K14), `status_named_roundtrip`, `mode_string_roundtrip`, `type_string_roundtrip`.
 * `opts_equals_refl/symm/trans`, `pin_equals_refl/symm/trans` — Equals is an equivalence on values held
   behind distinct pointers; `opts_equals_sound`, `pin_equals_sound` — it never overlooks a difference; `equals_is_equivalence_full` (also for one pointer) and its refutation.
 * `tagged_field_identity` — the generic prediction for json/msgpack is the identity on a field whose
@@ -86,7 +86,7 @@ def clusterDagPin : Pin :=
               metadata := [], pinUpdate := none, origins := [] },
     cid := some "c0", type := 8, allocs := [], maxDepth := 0, reference := some "c1" }
 
-/-- … and refuted without that hypothesis (finding K02): the stored form gives the pin the other mode -/
+/-- … and refuted without that hypothesis (finding K13): the stored form gives the pin the other mode -/
 theorem proto_property_full_fails : ¬ proto_property_full := by
   intro h
   obtain ⟨q, hq, hs⟩ := h clusterDagPin (by decide)
@@ -142,7 +142,7 @@ theorem status_string_roundtrip_partial (st : Nat) (h : knownStatusFilter st = t
   have := allBelow_spec _ _ status_table_partial st (known_lt st h)
   simpa [h, hp] using this
 
-/-- … and refuted in general (finding K03): pinned|pin_error comes back as pinned|error -/
+/-- … and refuted in general (finding K14): pinned|pin_error comes back as pinned|error -/
 theorem status_string_roundtrip_full_fails : ¬ status_string_roundtrip_full := by
   intro h
   have := h 20 (by decide)
